@@ -151,7 +151,7 @@ func runsFor(prop, tier string) []run {
 		return []run{{"state-machine", c, pick(5, 6), minutes(pickf(2, 10))}}
 	case "C11":
 		cand := ea.Cfg{Blocks: 1, Alphabet: []string{"SnapU", "SnapA", "Mark", "Checkpoint", "CheckpointUnknown"}, Oracles: []string{"candidates"}, MaxSnaps: pick(5, 6)}
-		del := ea.Cfg{Blocks: 2, Punch: true, Alphabet: []string{"W", "SnapU", "SnapA", "Mark", "Checkpoint", "Clean", "RmHead", "RmLatest", "RmBase"},
+		del := ea.Cfg{Blocks: 2, Punch: true, Alphabet: []string{"W", "SnapU", "SnapA", "Mark", "Checkpoint", "Clean", "RmHead", "RmLatest", "RmBase", "RmWrongMode"},
 			WShapes: [][2]int{{0, 8}, {8, 8}, {0, 16}, {4, 8}}, RShapes: [][2]int{{0, 16}}, Oracles: []string{"candidates", "read", "snapdirect", "snaprevert", "chain"}, MaxSnaps: 5, MaxWrites: 5}
 		d1 := del
 		d1.InitOps = []string{"W:0:16", "SnapA", "W:8:8", "SnapA", "W:0:8", "SnapA", "Checkpoint:2"}
